@@ -33,7 +33,7 @@ PROPERTY = 'C07'
 RULE = ('Hypothesis-generated text over {ASCII, 2-/3-/4-byte characters, combining marks, astral characters} x 9 '
         'codecs x {strict, replace, ignore} (garbage bytes only with replace/ignore) x up to 3 generated cut points '
         '(or maxread 1..3, i.e. every offset) x transports {pipe-fd, socketpair-fd, SocketSpawn, pty child, Popen '
-        'child, asyncio}; thorough adds an exhaustive sweep of every 1- and 2-cut splitting of streams <= 24 bytes. '
+        'child (read while it runs or after it has exited), asyncio}; thorough adds an exhaustive sweep of every 1- and 2-cut splitting of streams <= 24 bytes. '
         'Non-trivial: at least one read boundary strictly inside a multi-byte character (known from the generated '
         'offsets).  Distinct by hash of the case.')
 ASSUMPTIONS = [
